@@ -1,4 +1,5 @@
 import SpoxModel.Lemmas.InlineHyg
+import SpoxModel.Lemmas.InlineTotal
 import SpoxModel.Generated.InlineFacts
 /-! Property theorems for C08 (only property-level statements and non-vacuity examples live here).
 
@@ -324,6 +325,65 @@ theorem inline_sem_scope {V : Type} (sem : OpSem V) (lit : Lit → V)
   | res _ _ hi e => rw [e] at hxe; exact hnr (hxe ▸ List.getElem_mem hi)
   | fresh _ _ _ hf _ => rw [hxe] at hf; exact hf hn
   | empty _ e => rw [e] at hxe; exact hu0 (hxe ▸ hn)
+
+/-- **`rename_total`**: in a name space in which nothing visible and no counter key starts with
+    `<node>__` (decidable: `Space.prefixFree`), the memoised renaming of *any* request list cannot
+    raise, and every non-empty inner name `n` becomes exactly `<node>__n` -/
+theorem rename_total (pfx : String) (reqs : List String) (s : Space)
+    (hf : s.prefixFree pfx = true) :
+    ∃ tbl s', assign pfx reqs s [] = .ok (tbl, s') ∧
+      ∀ n ∈ reqs, tblGet tbl n = if n = "" then "" else pfx ++ "__" ++ n := by
+  obtain ⟨tbl, s', h1, h2, _, h4⟩ := assign_total pfx s hf reqs s [] (TInv.init pfx s)
+  refine ⟨tbl, s', h1, fun n hn => ?_⟩
+  have := h2.img _ (tblGet_mem tbl n (h4 n hn))
+  simpa using this
+
+/-- `_Inline.to_onnx` cannot raise in a scope whose two name spaces are free of the node's prefix
+    family -/
+theorem toOnnx_total (c : Ctx) (g : Graph)
+    (hv : c.var.prefixFree c.nodeName = true) (hn : c.node.prefixFree c.nodeName = true) :
+    ∃ em, toOnnx c (normalise g) = .ok em := by
+  have hinit : (normalise g).inits = [] := by cases g; rfl
+  obtain ⟨tbl, s1, h1, _⟩ := rename_total c.nodeName
+    ((normalise g).valueReqs.filter fun n =>
+      !((normalise g).inputs.contains n) && !((normalise g).outputs.contains n)) c.var hv
+  obtain ⟨ntbl, s2, h2, _⟩ := rename_total c.nodeName (normalise g).nodeReqs c.node hn
+  refine ⟨⟨Node.renameL (rho (normalise g).inputs (normalise g).outputs c.argNames c.resNames tbl)
+      (tblGet ntbl) (normalise g).nodes ++
+      passThrough (normalise g).inputs c.argNames (normalise g).outputs c.resNames, s1, s2⟩, ?_⟩
+  unfold toOnnx
+  simp only [h1, h2, hinit, ne_eq, not_true_eq_false, if_false]
+
+/-- **`inline_sem_total`**: `inline_sem_scope` with its "does not raise" hypothesis discharged by
+    the decidable scope condition: for every scope free of the `<node>__` family, `to_onnx`
+    succeeds and the emitted nodes compute exactly `evalModel m vals` on the result names -/
+theorem inline_sem_total {V : Type} (sem : OpSem V) (lit : Lit → V)
+    (hc : ∀ l, sem (constOp l) [] [] = some [some (lit l)])
+    (hid : ∀ v : V, sem identityOp [some v] [] = some [some v])
+    (g : Graph) (c : Ctx) (vals : List V) (E : Env V) (outs : List (Option V))
+    (hv : c.var.prefixFree c.nodeName = true) (hn : c.node.prefixFree c.nodeName = true)
+    (hin : g.inputs.Nodup) (hin0 : "" ∉ g.inputs) (hout : g.outputs.Nodup) (hout0 : "" ∉ g.outputs)
+    (hA : ∀ x ∈ Node.assignedL g.nodes, x ∉ g.inputs)
+    (hal : c.argNames.length = g.inputs.length) (hrl : c.resNames.length = g.outputs.length)
+    (hrn : c.resNames.Nodup) (hu0 : "" ∉ c.var.used)
+    (hau : ∀ a ∈ c.argNames, a ∈ c.var.used)
+    (hru : ∀ r ∈ c.resNames, r ∈ c.var.used ∧ r ∉ c.argNames)
+    (hlen : g.inputs.length = vals.length)
+    (hE : ∀ i (h : i < c.argNames.length) (h' : i < vals.length), E.get c.argNames[i] = some vals[i])
+    (hEf : ∀ n, n ∉ c.var.used → E n = none) (hEr : ∀ r ∈ c.resNames, E r = none)
+    (hev : evalModel sem lit g vals = some outs) :
+    ∃ em E', toOnnx c (normalise g) = .ok em ∧ evalNodes sem lit em.nodes E = some E' ∧
+      c.resNames.map E'.get = outs ∧ ∀ n ∈ c.var.used, n ∉ c.resNames → E' n = E n := by
+  obtain ⟨em, hem⟩ := toOnnx_total c g hv hn
+  obtain ⟨E', h1, h2, h3⟩ := inline_sem_scope sem lit hc hid g c em vals E outs hem hin hin0 hout
+    hout0 hA hal hrl hrn hu0 hau hru hlen hE hEf hEr hev
+  exact ⟨em, E', hem, h1, h2, h3⟩
+
+/-- non-vacuity / sharpness: a counter in the family makes the name differ, a visible name in the
+    family makes `reserve` raise -/
+example : (Space.mk ["z"] []).prefixFree "Inline_0" = true ∧
+    (Space.mk ["z", "Inline_0__x"] []).prefixFree "Inline_0" = false ∧
+    (assign "Inline_0" ["x"] ⟨["z", "Inline_0__x"], []⟩ []).toOption.isNone = true := by decide
 
 /-- a small integer semantics for the examples -/
 def exSem : OpSem Int := fun op ins _ =>
